@@ -23,6 +23,7 @@ type c10ex struct {
 	fwd  bool
 	mode string // f: forward plain, g: forward grouped (VT_G1), b: backward plain, h: backward grouped (CC_G1)
 	ids  map[string]bool
+	two  bool              // grouped token named with two underscores
 	sent map[string]string // "to:"/"cancel:" + transfer id -> tx id of the robot's last such request
 }
 
@@ -38,8 +39,14 @@ func (e *c10ex) u(name string) *simpeer.User {
 func (e *c10ex) token() string {
 	switch e.mode {
 	case "g":
+		if e.two {
+			return "VT_X_G1" // the group is what follows the last underscore
+		}
 		return "VT_G1"
 	case "h":
+		if e.two {
+			return "CC_X_G1"
+		}
 		return "CC_G1"
 	}
 	if e.fwd {
@@ -71,10 +78,11 @@ func (e *c10ex) Exec(op string) string {
 	}
 	wd := theWorld()
 	if w[0] == "reset" {
-		if len(w) != 2 {
+		if len(w) != 2 && !(len(w) == 3 && w[2] == "2u" && (w[1] == "g" || w[1] == "h")) {
 			return "bad-op"
 		}
 		e.mode = w[1]
+		e.two = len(w) == 3
 		e.fwd = w[1] == "f" || w[1] == "g"
 		e.a = wd.AddChannel("VT", world.Options{})
 		e.b = wd.AddChannel("CC", world.Options{})
@@ -271,14 +279,14 @@ func (e *c10ex) Exec(op string) string {
 				bs = append(bs, n+"="+bal(e.b, "allowedBalanceOf", addr, "VT"))
 			case "g":
 				as = append(as, n+"="+groupBal(e.a, addr))
-				bs = append(bs, n+"="+bal(e.b, "allowedBalanceOf", addr, "VT_G1"))
+				bs = append(bs, n+"="+bal(e.b, "allowedBalanceOf", addr, e.token()))
 				stray.Add(stray, bigOf(bal(e.a, "balanceOf", addr)))
 				stray.Add(stray, bigOf(bal(e.b, "allowedBalanceOf", addr, "VT")))
 			case "b":
 				as = append(as, n+"="+bal(e.a, "allowedBalanceOf", addr, "CC"))
 				bs = append(bs, n+"="+bal(e.b, "balanceOf", addr))
 			default:
-				as = append(as, n+"="+bal(e.a, "allowedBalanceOf", addr, "CC_G1"))
+				as = append(as, n+"="+bal(e.a, "allowedBalanceOf", addr, e.token()))
 				bs = append(bs, n+"="+groupBal(e.b, addr))
 				stray.Add(stray, bigOf(bal(e.b, "balanceOf", addr)))
 				stray.Add(stray, bigOf(bal(e.a, "allowedBalanceOf", addr, "CC")))
@@ -459,8 +467,13 @@ func genC10(c *Cfg, emit func([]string)) {
 	if c.Thorough() {
 		nRand = 20000
 	}
+	// grouped tokens whose name has two underscores (the group is the last part): full runs, cancels, returns
+	for _, dir := range []string{"g 2u", "h 2u"} {
+		emit([]string{"reset " + dir, "fund u0 100", "from t1 u0 40", "dump", "cancel t1", "dump", "from t2 u0 40", "dump", "to t2 u0 40", "dump", "commit t2", "delto t2", "delfrom t2", "dump"})
+		emit([]string{"reset " + dir, "fund u0 100", "fund u1 50", "from t1 u0 100", "to t1 u0 100", "dump", "from t2 u1 50", "cancel t2", "dump", "commit t1", "dump"})
+	}
 	for i := 0; i < nRand; i++ {
-		dir := []string{"f", "b", "g", "h"}[c.Rng.Intn(4)]
+		dir := []string{"f", "b", "g", "h", "g 2u", "h 2u"}[c.Rng.Intn(6)]
 		h := []string{"reset " + dir, "fund u0 100", "fund u1 50"}
 		type tr struct {
 			id, user string
@@ -507,6 +520,6 @@ func genC10(c *Cfg, emit func([]string)) {
 		}
 		emit(h)
 	}
-	c.Rule = fmt.Sprintf("(a) every sequence of %d steps over {initiate, create-to, commit, delete-to, delete-from, cancel} on one id (forward direction exhaustively, backward %s): every step attempted in and out of turn and repeated, the robot stopping after any prefix; (a''') the records of the id re-encoded in the old binary form at every stage followed by every step; (a'''') the robot re-sending an executed create-to / cancel batch at every later stage, also after the records are gone and after the id was reused; (a') every robot step attempted by an ordinary client certificate at every stage of a run, in all 4 token shapes; (b) %d random histories over 3 ids x 2 users x both directions with duplicate ids, amounts {0,1,40,50,100,101}, off-protocol create-to content; two real chaincode instances on two simulated peers; after every step token/allowed balances of both users on both channels, both given counters and the records visible through channelTransferFrom/To. non-trivial = contains an initiation; distinct = sha256", depth, map[bool]string{true: "exhaustively", false: "sampled"}[c.Thorough()], nRand)
+	c.Rule = fmt.Sprintf("(a) every sequence of %d steps over {initiate, create-to, commit, delete-to, delete-from, cancel} on one id (forward direction exhaustively, backward %s): every step attempted in and out of turn and repeated, the robot stopping after any prefix; (a''') the records of the id re-encoded in the old binary form at every stage followed by every step; (a'''') the robot re-sending an executed create-to / cancel batch at every later stage, also after the records are gone and after the id was reused; (a') every robot step attempted by an ordinary client certificate at every stage of a run, in all 4 token shapes; grouped tokens also with two underscores in the name; (b) %d random histories over 3 ids x 2 users x both directions with duplicate ids, amounts {0,1,40,50,100,101}, off-protocol create-to content; two real chaincode instances on two simulated peers; after every step token/allowed balances of both users on both channels, both given counters and the records visible through channelTransferFrom/To. non-trivial = contains an initiation; distinct = sha256", depth, map[bool]string{true: "exhaustively", false: "sampled"}[c.Thorough()], nRand)
 	c.Extra = map[string]any{"walk_depth": depth, "random": nRand}
 }
